@@ -28,6 +28,7 @@ var commonAssumptions = []string{
 }
 
 const c08Common = "the agent is built by the REAL newAgentWithConfig (real task loop, real on-close teardown closure, real notifiers, real initial Restart) around a struct literal mirroring createAgentBase; Close or GracefulClose is injected after 0..3 (thorough 0..7) fair hand-overs to the other goroutines, plus every schedule with at most 1 preemption at synchronisation points and the first 2–3 (thorough 4–5) free switches explored over all enabled threads"
+const c08CommonFixed = "the agent is built by the REAL newAgentWithConfig (real task loop, real on-close teardown closure, real notifiers, real initial Restart) around a struct literal mirroring createAgentBase; Close or GracefulClose is injected after 0..3 fair hand-overs (both tiers) to the other goroutines, plus every schedule with at most 1 preemption at synchronisation points and the first 3 non-preemptive switch points explored nondeterministically (both tiers)"
 
 func allChecks() []CheckSpec {
 	return []CheckSpec{
@@ -147,20 +148,20 @@ func allChecks() []CheckSpec {
 						c.MaxWallS = 2400
 					}},
 				{Fn: "verifC08CloseAfterRestart", Lemma: "Close after a Restart that cancelled a gathering cycle at any explored moment of it: Restart returns nil, Close still waits for the cancelled cycle — once it has returned that cycle opens no socket, every socket it opened is closed and no goroutine of it is left; same finality clauses",
-					Bounds: "one IPv4 interface, host candidates only, socket opening gated (released by a helper goroutine as late as possible — when nothing else can move — or after 0..1 hand-overs; thorough: 0..2, or ungated); GatherCandidates; 0..1 (thorough 0..2) hand-overs; Restart; 0..3 (thorough 0..7) hand-overs; Close or GracefulClose; " + c08Common, MustReach: []string{"closed", "slow-network", "socket-opened-before-close", "done"},
+					Bounds: "one IPv4 interface, host candidates only, socket opening gated (released by a helper goroutine as late as possible — when nothing else can move — or after 0..1 hand-overs); GatherCandidates; 0..1 hand-overs; Restart; 0..3 hand-overs; Close or GracefulClose; the same bounds in both tiers (a larger thorough variant did not finish inside 30 minutes: not claimed); " + c08CommonFixed, MustReach: []string{"closed", "slow-network", "socket-opened-before-close", "done"},
 					Cfg: func(c *HarnessCfg, tier int) {
 						c.GoPolicy = "explore"
 						c.ContextBound = 1
-						c.FreeChoiceBound = 3 + 2*tier
+						c.FreeChoiceBound = 3
 						c.MaxPaths = 6000000
 						c.MaxWallS = 2400
 					}},
 				{Fn: "verifC08CloseAfterRegather", Lemma: "Close while two gathering cycles are alive (GatherCandidates; Restart cancels it while it is busy in the network; GatherCandidates again; Close): the teardown waits for both — once Close has returned neither cycle opens a socket, every opened socket is closed, no goroutine is left; same finality clauses",
-					Bounds: "one IPv4 interface, host candidates only, the first socket opening gated (released by a helper goroutine as late as possible — when nothing else can move — or at once; thorough: also after 1 hand-over); 1 (thorough 1..2) hand-overs before Restart; 0..3 (thorough 0..7) before Close or GracefulClose; " + c08Common, MustReach: []string{"closed", "done"},
+					Bounds: "one IPv4 interface, host candidates only, the first socket opening gated (released by a helper goroutine as late as possible — when nothing else can move — or at once); 1 hand-over before Restart; 0..3 before Close or GracefulClose; the same bounds in both tiers; " + c08CommonFixed, MustReach: []string{"closed", "done"},
 					Cfg: func(c *HarnessCfg, tier int) {
 						c.GoPolicy = "explore"
 						c.ContextBound = 1
-						c.FreeChoiceBound = 3 + 2*tier
+						c.FreeChoiceBound = 3
 						c.MaxPaths = 6000000
 						c.MaxWallS = 2400
 					}},
@@ -296,7 +297,7 @@ func allChecks() []CheckSpec {
 					Cfg: func(c *HarnessCfg, tier int) {
 						c.GoPolicy = "explore"
 						c.ContextBound = 1
-						c.FreeChoiceBound = 3 + 2*tier
+						c.FreeChoiceBound = 3
 						c.MaxPaths = 6000000
 						c.MaxWallS = 2400
 					}},
@@ -385,10 +386,10 @@ func allChecks() []CheckSpec {
 						c.MaxWallS = 1500
 					}},
 				{Fn: "verifC13AbortInterleavedAP", Lemma: "the same with the sibling writing through the AddrPort path (writeToUDPAddrPort on an AddrPort-capable socket): a sibling's write that starts after another user's cancelled write had the shared socket's deadline armed waits and then succeeds (one already in flight at that moment may share the blocked write's fate: it succeeds or times out); everybody returns, the state word is 0, the deadline is cleared, a later write succeeds",
-					Bounds: "threads: harness, 2 writers, canceller, the internal abort goroutine, connWorker; at most 1 (thorough 2) preemptive context switches at synchronisation-point granularity (atomic operations included)", MustReach: []string{"addrport-sibling", "sibling-starts-during-or-after-the-abort", "deadline-was-armed", "done"},
+					Bounds: "threads: harness, 2 writers, canceller, the internal abort goroutine, connWorker; at most 1 preemptive context switch (2 did not finish inside a 40-minute budget: not claimed) at synchronisation-point granularity (atomic operations included)", MustReach: []string{"addrport-sibling", "sibling-starts-during-or-after-the-abort", "deadline-was-armed", "done"},
 					Cfg: func(c *HarnessCfg, tier int) {
 						c.GoPolicy = "explore"
-						c.ContextBound = 1 + tier
+						c.ContextBound = 1
 						c.MaxPaths = 6000000
 						c.MaxWallS = 2400
 					}},
@@ -401,10 +402,10 @@ func allChecks() []CheckSpec {
 						c.MaxWallS = 900
 					}},
 				{Fn: "verifC13TwoPendingReads", Lemma: "schedule exploration over the real sharedPacketConn.ReadFrom/Close and udpMuxedConn.readPacket/writePacket: both handles have a read pending (or starting) when a datagram arrives while one handle is being closed: the wake-up is not lost with the closed handle — its read either took the datagram before the close reached it or fails, and the sibling's pending read gets the queued datagram; nothing stays queued and nobody stays asleep",
-					Bounds: "2 handles of one ufrag, 2 readers, 1 closer, 1 datagram (+1 when the closed handle took the first), readers given 0..2 hand-overs to park; schedules with <= 1 (thorough 2) preemptions; a select with several ready cases is a choice point", MustReach: []string{"closed-handle-took-it-first", "closed-handle's-read-failed", "done"},
+					Bounds: "2 handles of one ufrag, 2 readers, 1 closer, 1 datagram (+1 when the closed handle took the first), readers given 0..2 hand-overs to park; schedules with <= 1 preemption (both tiers); a select with several ready cases is a choice point", MustReach: []string{"closed-handle-took-it-first", "closed-handle's-read-failed", "done"},
 					Cfg: func(c *HarnessCfg, tier int) {
 						c.GoPolicy = "explore"
-						c.ContextBound = 1 + tier
+						c.ContextBound = 1
 						c.MaxPaths = 3000000
 						c.MaxWallS = 1200
 					}},
